@@ -58,11 +58,85 @@ fn load_words_cmd(args: &[String]) {
     }
 }
 
+fn scan(f: &dyn Fn(u32) -> Option<u32>, extra: &[u32]) {
+    let mut ns: Vec<u32> = (0u32..=70000).collect();
+    for &e in extra {
+        for d in 0..=4u32 {
+            ns.push(e.wrapping_add(d).wrapping_sub(2));
+        }
+    }
+    ns.extend_from_slice(&[0x7ffffffd, 0x7ffffffe, 0x7fffffff, 0x80000000, 0x80000001, 0xfffffffe, 0xffffffff]);
+    for n in ns {
+        match f(n) {
+            Some(v) => println!("{} {}", n, v),
+            None => println!("{} None", n),
+        }
+    }
+}
+
+/// enum-scan <Enum> [extra n ...]: real from_u32 on 0..=70000, around every extra n, and the top values.
+fn enum_scan(args: &[String]) {
+    let extra: Vec<u32> = args[1..].iter().map(|a| a.parse().unwrap()).collect();
+    let extra = &extra[..];
+    match args[0].as_str() {
+        "SourceLanguage" => scan(&|n| spirv::SourceLanguage::from_u32(n).map(|v| v as u32), extra),
+        "ExecutionModel" => scan(&|n| spirv::ExecutionModel::from_u32(n).map(|v| v as u32), extra),
+        "AddressingModel" => scan(&|n| spirv::AddressingModel::from_u32(n).map(|v| v as u32), extra),
+        "MemoryModel" => scan(&|n| spirv::MemoryModel::from_u32(n).map(|v| v as u32), extra),
+        "ExecutionMode" => scan(&|n| spirv::ExecutionMode::from_u32(n).map(|v| v as u32), extra),
+        "StorageClass" => scan(&|n| spirv::StorageClass::from_u32(n).map(|v| v as u32), extra),
+        "Dim" => scan(&|n| spirv::Dim::from_u32(n).map(|v| v as u32), extra),
+        "SamplerAddressingMode" => scan(&|n| spirv::SamplerAddressingMode::from_u32(n).map(|v| v as u32), extra),
+        "SamplerFilterMode" => scan(&|n| spirv::SamplerFilterMode::from_u32(n).map(|v| v as u32), extra),
+        "ImageFormat" => scan(&|n| spirv::ImageFormat::from_u32(n).map(|v| v as u32), extra),
+        "ImageChannelOrder" => scan(&|n| spirv::ImageChannelOrder::from_u32(n).map(|v| v as u32), extra),
+        "ImageChannelDataType" => scan(&|n| spirv::ImageChannelDataType::from_u32(n).map(|v| v as u32), extra),
+        "FPRoundingMode" => scan(&|n| spirv::FPRoundingMode::from_u32(n).map(|v| v as u32), extra),
+        "FPDenormMode" => scan(&|n| spirv::FPDenormMode::from_u32(n).map(|v| v as u32), extra),
+        "QuantizationModes" => scan(&|n| spirv::QuantizationModes::from_u32(n).map(|v| v as u32), extra),
+        "FPOperationMode" => scan(&|n| spirv::FPOperationMode::from_u32(n).map(|v| v as u32), extra),
+        "OverflowModes" => scan(&|n| spirv::OverflowModes::from_u32(n).map(|v| v as u32), extra),
+        "LinkageType" => scan(&|n| spirv::LinkageType::from_u32(n).map(|v| v as u32), extra),
+        "AccessQualifier" => scan(&|n| spirv::AccessQualifier::from_u32(n).map(|v| v as u32), extra),
+        "HostAccessQualifier" => scan(&|n| spirv::HostAccessQualifier::from_u32(n).map(|v| v as u32), extra),
+        "FunctionParameterAttribute" => scan(&|n| spirv::FunctionParameterAttribute::from_u32(n).map(|v| v as u32), extra),
+        "Decoration" => scan(&|n| spirv::Decoration::from_u32(n).map(|v| v as u32), extra),
+        "BuiltIn" => scan(&|n| spirv::BuiltIn::from_u32(n).map(|v| v as u32), extra),
+        "Scope" => scan(&|n| spirv::Scope::from_u32(n).map(|v| v as u32), extra),
+        "GroupOperation" => scan(&|n| spirv::GroupOperation::from_u32(n).map(|v| v as u32), extra),
+        "KernelEnqueueFlags" => scan(&|n| spirv::KernelEnqueueFlags::from_u32(n).map(|v| v as u32), extra),
+        "Capability" => scan(&|n| spirv::Capability::from_u32(n).map(|v| v as u32), extra),
+        "RayQueryIntersection" => scan(&|n| spirv::RayQueryIntersection::from_u32(n).map(|v| v as u32), extra),
+        "RayQueryCommittedIntersectionType" => scan(&|n| spirv::RayQueryCommittedIntersectionType::from_u32(n).map(|v| v as u32), extra),
+        "RayQueryCandidateIntersectionType" => scan(&|n| spirv::RayQueryCandidateIntersectionType::from_u32(n).map(|v| v as u32), extra),
+        "PackedVectorFormat" => scan(&|n| spirv::PackedVectorFormat::from_u32(n).map(|v| v as u32), extra),
+        "CooperativeMatrixLayout" => scan(&|n| spirv::CooperativeMatrixLayout::from_u32(n).map(|v| v as u32), extra),
+        "CooperativeMatrixUse" => scan(&|n| spirv::CooperativeMatrixUse::from_u32(n).map(|v| v as u32), extra),
+        "TensorClampMode" => scan(&|n| spirv::TensorClampMode::from_u32(n).map(|v| v as u32), extra),
+        "InitializationModeQualifier" => scan(&|n| spirv::InitializationModeQualifier::from_u32(n).map(|v| v as u32), extra),
+        "LoadCacheControl" => scan(&|n| spirv::LoadCacheControl::from_u32(n).map(|v| v as u32), extra),
+        "StoreCacheControl" => scan(&|n| spirv::StoreCacheControl::from_u32(n).map(|v| v as u32), extra),
+        "NamedMaximumNumberOfRegisters" => scan(&|n| spirv::NamedMaximumNumberOfRegisters::from_u32(n).map(|v| v as u32), extra),
+        "FPEncoding" => scan(&|n| spirv::FPEncoding::from_u32(n).map(|v| v as u32), extra),
+        "CooperativeVectorMatrixLayout" => scan(&|n| spirv::CooperativeVectorMatrixLayout::from_u32(n).map(|v| v as u32), extra),
+        "ComponentType" => scan(&|n| spirv::ComponentType::from_u32(n).map(|v| v as u32), extra),
+        "Op" => scan(&|n| spirv::Op::from_u32(n).map(|v| v as u32), extra),
+        "GLOp" => scan(&|n| spirv::GLOp::from_u32(n).map(|v| v as u32), extra),
+        "CLOp" => scan(&|n| spirv::CLOp::from_u32(n).map(|v| v as u32), extra),
+        "DebugPrintFOp" => scan(&|n| spirv::DebugPrintFOp::from_u32(n).map(|v| v as u32), extra),
+        other => {
+            eprintln!("unknown enum {}", other);
+            std::process::exit(64);
+        }
+    }
+}
+
 fn main() {
     let args: Vec<String> = env::args().collect();
     match args.get(1).map(|s| s.as_str()) {
         Some("reflect-dump") => reflect_dump(),
         Some("load-words") => load_words_cmd(&args[2..]),
+        Some("enum-scan") => enum_scan(&args[2..]),
         _ => {
             eprintln!("usage: vreplay <subcommand> ...");
             std::process::exit(64);
